@@ -771,8 +771,8 @@ impl Formatter {
         ":disabled".to_string()
       } else if block.config.hidden {
         ":hidden".to_string()
-      } else if !namespace_str.is_empty() {
-        format!(":{}", namespace_str)
+      } else if !namespace_str.trim().is_empty() {
+        format!(":{}", namespace_str.trim())
       } else {
         "".to_string()
       };
